@@ -10,7 +10,8 @@ Import ListNotations.
     satisfies the invariant [tree_okb] (stored operand signatures are the checker's - exactly so where
     the run-time form reads them while the checker re-infers: by, rows, each, inventory, repeat;
     operands of iterating modifiers and switch branches leave the hidden context stack alone; every
-    switch branch fits the switch's signature; validated on real compiler output on every run), every fuel and every run-time state whose stack holds at least
+    switch branch fits the switch's signature; validated on real compiler output on every run; try with
+    ANY number of handlers, both/un-both and on with numeric subscripts are inside), every fuel and every run-time state whose stack holds at least
     [sa sg] values: the run either fails or consumes exactly the top [sa sg] values, produces
     [so sg], leaves everything beneath untouched (on the stack and on the hidden context stack), and
     restores the fill stack, the fill boundaries and the call depth.  At a failure point the values
